@@ -109,6 +109,9 @@ mut('C09', 'revert-F15-dt-per-step', CC + 'spread_step_sizes.py', '        if S 
 mut('C10', 'tau-sign-flipped', 'pySDC/core/base_transfer.py', 'G.tau[m] = tauFG[m] - tauG[m]', 'G.tau[m] = tauG[m] - tauFG[m]')
 mut('C10', 'prolong-full-value', 'pySDC/core/base_transfer.py', 'tmp_u.append(self.space_transfer.prolong(G.u[m] - G.uold[m]))', 'tmp_u.append(self.space_transfer.prolong(G.u[m]))')
 mut('C10', 'fine-tau-Rcoll-index', 'pySDC/core/base_transfer.py', 'G.tau[n] += self.Rcoll[n, m] * tmp_tau[m]', 'G.tau[n] += self.Rcoll[n, m - 1] * tmp_tau[m]')
+mut('C10', 'prolong-f-not-interpolated', 'pySDC/core/base_transfer.py', '                F.f[n] += self.Pcoll[n - 1, m] * tmp_f[m]', '                pass')
+mut('C10', 'extra-fine-sweep-in-it-up', CT + 'controller_nonMPI.py', '            if l - 1 > 0:\n                for k in range(self.nsweeps[l - 1]):', '            if l - 1 >= 0:\n                for k in range(self.nsweeps[l - 1]):')
+mut('C10', 'coarse-f-not-reevaluated', 'pySDC/core/base_transfer.py', '            G.f[m] = PG.eval_f(G.u[m], G.time + G.dt * SG.coll.nodes[m - 1])', '            G.f[m] = PG.dtype_f(self.space_transfer.restrict(F.f[min(m, SF.coll.num_nodes)])) if not hasattr(PG.dtype_f, "components") else PG.eval_f(G.u[m], G.time + G.dt * SG.coll.nodes[m - 1])')
 # ---------------------------------------------------------------------------------------------------------------- C11
 mut('C11', 'stencil-offset', 'pySDC/helpers/transfer_helper.py', 'offset = int(k / 2)', 'offset = int(k / 2) + 1')
 mut('C11', 'Rcoll-from-transposed-P', 'pySDC/core/base_transfer.py', 'self.Rcoll = self.get_transfer_matrix_Q(coarse_grid, fine_grid)', 'self.Rcoll = self.get_transfer_matrix_Q(fine_grid, coarse_grid).T')
